@@ -56,7 +56,8 @@ def check(mon, ev):
         if worst > 700 or not rng_ok(fmp(Mq[4]) * mpmath.exp(worst)) or not all(rng_ok(fmp(Mq[j]) * worst ** (j + 1)) for j in range(4)):
             mon.count("out_of_domain")
             return
-    mags = [Sk, Sa, Sb, abs(mpf(ky))] + [abs(fmp(q)) for q in Q]
+    # the polynomial part q(ln t) is formed before it is multiplied by t: it must not overflow either
+    mags = [Sk, Sa, Sb, Sk / mpf(kx), Sa / mpf(a), Sb / mpf(b), abs(mpf(ky))] + [abs(fmp(q)) for q in Q]
     if not all(rng_ok(v) for v in mags) or any(not rng_ok(abs(L) ** n) for L in (Lk, La, Lb) if L != 0):
         mon.count("out_of_domain")
         return
